@@ -15,8 +15,10 @@ import (
 	"crypto/sha256"
 	"encoding/json"
 	"fmt"
+	"os"
 	"runtime"
 	"sort"
+	"strconv"
 	"strings"
 	"sync"
 	"time"
@@ -1905,13 +1907,25 @@ func (s *search) observe(in *Inst, path16 []uint16) {
 
 // RunSeq is the body of the sequential parts: all configurations of one mempool version, sharded by
 // configuration, breadth-first search to the tier's depth in each.
-func RunSeq(ad Adapter, part string, quickBudget, thoroughBudget time.Duration, quick, thorough Bounds) {
+// Phase is one search of a tier: bounds, and the share of the part's time budget it may use.
+type Phase struct {
+	B     Bounds
+	Share float64
+}
+
+func RunSeq(ad Adapter, part string, quickBudget, thoroughBudget time.Duration, quick, thorough []Phase) {
 	r := vr.Start("C12", part, quickBudget, thoroughBudget)
 	defer r.Finish()
-	b := quick
+	phases, budget := quick, quickBudget
 	if vr.Thorough() {
-		b = thorough
+		phases, budget = thorough, thoroughBudget
 	}
+	if s := os.Getenv("VERIF_BUDGET_S"); s != "" {
+		if v, err := strconv.Atoi(s); err == nil {
+			budget = time.Duration(v) * time.Second
+		}
+	}
+	start := time.Now()
 	r.Rule = "explicit-state breadth-first search over operation sequences of the real mempool; a state is the operation path, merged on the canonical encoding of the mempool's internal state + unanswered requests + reference model; non-trivial = states in which a transaction is in the pool while the cache has forgotten it"
 	r.Assume("the application connection is the harness's: responses are delivered in request order (v0) / first-time checks complete in any order (v1), with every verdict from the menu")
 	r.Assume("Commit+Update is called as BlockExecutor.Commit does (Lock, FlushAppConn, Update, Unlock) and only when no request is unanswered, which is what FlushAppConn establishes")
@@ -1942,57 +1956,75 @@ func RunSeq(ad Adapter, part string, quickBudget, thoroughBudget time.Duration, 
 		}
 		cfgs = append(append([]Cfg(nil), cfgs[k:]...), cfgs[:k]...)
 	}
-	var searches []*search
-	for k, c := range cfgs {
-		if r.Mine(k) {
-			searches = append(searches, newSearch(r, ad, c, b))
-		}
-	}
-	completed := 0
-	for depth := 0; depth < b.Depth; depth++ {
-		ok := true
-		open := 0
-		for _, s := range searches {
-			if s.Closed {
-				continue
+	var bounds []string
+	used := 0.0
+	for pi, ph := range phases {
+		b := ph.B
+		used += ph.Share
+		phaseEnd := start.Add(time.Duration(float64(budget) * used))
+		var searches []*search
+		for k, c := range cfgs {
+			if r.Mine(k) {
+				searches = append(searches, newSearch(r, ad, c, b))
 			}
-			if ok = s.level(func() bool { return r.Deadline(fmt.Sprintf("breadth-first search, level %d", depth+1)) }); !ok {
+		}
+		completed := 0
+		for depth := 0; depth < b.Depth; depth++ {
+			ok := true
+			open := 0
+			what := fmt.Sprintf("breadth-first search, phase %d, level %d", pi+1, depth+1)
+			for _, s := range searches {
+				if s.Closed {
+					continue
+				}
+				ok = s.level(func() bool {
+					if time.Now().After(phaseEnd) {
+						r.Cap("time budget reached: " + what)
+						return true
+					}
+					return r.Deadline(what)
+				})
+				if !ok {
+					break
+				}
+				if !s.Closed {
+					open++
+				}
+			}
+			if !ok {
 				break
 			}
-			if !s.Closed {
-				open++
+			completed = depth + 1
+			if open == 0 {
+				completed = b.Depth // every reachable state of every configuration has been expanded
+				break
 			}
 		}
-		if !ok {
-			break
+		closed := 0
+		var smin, smax int64 = 1 << 60, 0
+		for _, s := range searches {
+			if s.Closed {
+				closed++
+			}
+			if s.States < smin {
+				smin = s.States
+			}
+			if s.States > smax {
+				smax = s.States
+			}
+			if pi == 0 {
+				r.Add("configurations", 1)
+			}
 		}
-		completed = depth + 1
-		if open == 0 {
-			completed = b.Depth // every reachable state of every configuration has been expanded
-			break
+		if len(searches) > 0 {
+			r.Set(fmt.Sprintf("phase%d_states_per_configuration_shard%d", pi+1, r.Shard), fmt.Sprintf("min %d max %d", smin, smax))
 		}
+		r.Set(fmt.Sprintf("phase%d_depth_completed_shard%d", pi+1, r.Shard), fmt.Sprintf("%d of %d", completed, b.Depth))
+		r.Add(fmt.Sprintf("phase%d_configurations_closed", pi+1), int64(closed))
+		bj, _ := json.Marshal(b)
+		bounds = append(bounds, fmt.Sprintf("phase %d: all operation sequences up to depth %d in every configuration of this shard (bounds %s)", pi+1, completed, bj))
 	}
-	minDepth := completed
-	closed := 0
-	var smin, smax int64 = 1 << 60, 0
-	for _, s := range searches {
-		if s.Closed {
-			closed++
-		}
-		if s.States < smin {
-			smin = s.States
-		}
-		if s.States > smax {
-			smax = s.States
-		}
-		r.Add("configurations", 1)
-	}
-	if len(searches) > 0 {
-		r.Set(fmt.Sprintf("states_per_configuration_shard%d", r.Shard), fmt.Sprintf("min %d max %d", smin, smax))
-	}
-	bj, _ := json.Marshal(b)
-	r.Bound = fmt.Sprintf("all operation sequences up to depth %d in every configuration of this shard (bounds %s)", minDepth, bj)
-	r.Add("configurations_closed", int64(closed))
+	r.Bound = strings.Join(bounds, " ; ")
 }
 
 // ------------------------------------------------------------------------------------------------
